@@ -25,6 +25,7 @@ pub struct ChunkDeserializer {
     current_payload_data: BytesMut,
     buffer: BytesMut,
     previous_headers: HashMap<u32, ChunkHeader>,
+    partial_payloads: HashMap<u32, BytesMut>,
 }
 
 enum ParsedValue<T> {
@@ -61,6 +62,7 @@ impl ChunkDeserializer {
             current_stage: ParseStage::Csid,
             buffer: BytesMut::with_capacity(4096),
             previous_headers: HashMap::new(),
+            partial_payloads: HashMap::new(),
             current_payload: MessagePayload::new(),
             current_payload_data: BytesMut::new(),
         }
@@ -219,6 +221,13 @@ impl ChunkDeserializer {
                 Some(header) => header,
             },
         };
+
+        // Chunks of messages on different chunk streams may be interleaved, so continue with the
+        // payload data (if any) that has been received so far for this specific chunk stream
+        self.current_payload_data = self
+            .partial_payloads
+            .remove(&csid)
+            .unwrap_or_else(BytesMut::new);
 
         let _ = self.buffer.split_to(next_index as usize);
         self.current_stage = ParseStage::InitialTimestamp;
@@ -398,6 +407,11 @@ impl ChunkDeserializer {
 
             let payload = mem::replace(&mut self.current_payload, MessagePayload::new());
             *message_to_return = Some(payload)
+        } else {
+            // Message is not complete yet, so keep what we have until this chunk stream's next chunk
+            let partial_data = mem::replace(&mut self.current_payload_data, BytesMut::new());
+            self.partial_payloads
+                .insert(self.current_header.chunk_stream_id, partial_data);
         }
 
         // This completes the current chunk, so cycle the header into the map and start a new one
